@@ -424,7 +424,7 @@ func hostileBencode(rng *rand.Rand, sub int) ([]byte, string) {
 		1: {"added", "added.f", "added6", "added6.f", "dropped", "dropped6", "zz"},
 		2: {"msg_type", "piece", "total_size", "zz"},
 	}[sub]
-	cls := []string{"strlen>frame", "int-boundary", "wrong-type", "dup-unsorted", "deep-nesting", "trailing", "valid-ish", "meta-sizes", "huge-list"}[rng.IntN(9)]
+	cls := []string{"strlen>frame", "int-boundary", "wrong-type", "dup-unsorted", "deep-nesting", "trailing", "valid-ish", "meta-sizes", "huge-list", "typed-fields", "typed-fields"}[rng.IntN(11)]
 	var b bytes.Buffer
 	val := func() string {
 		switch rng.IntN(6) {
@@ -443,6 +443,88 @@ func hostileBencode(rng *rand.Rand, sub int) ([]byte, string) {
 		}
 	}
 	switch cls {
+	case "typed-fields":
+		// every key with a value of the RIGHT type but independent, boundary-valued sizes: compact peer
+		// lists of n entries with 0, 1, n-1, n, n+1 flag bytes, addresses of 0..20 bytes, ids 0..300, ...
+		bytesOf := func(n int) string {
+			b := make([]byte, n)
+			for i := range b {
+				b[i] = byte(rng.IntN(256))
+			}
+			return bstr(string(b))
+		}
+		b.WriteString("d")
+		switch sub {
+		case 1:
+			for _, fam := range []struct {
+				k string
+				w int
+			}{{"added", 6}, {"added6", 18}, {"dropped", 6}, {"dropped6", 18}} {
+				if rng.IntN(4) == 0 {
+					continue
+				}
+				n := []int{0, 1, 2, 3, 50, 200}[rng.IntN(6)]
+				ln := n * fam.w
+				if rng.IntN(6) == 0 {
+					ln += rng.IntN(fam.w) // not a multiple of the entry size
+				}
+				if fam.k == "added" || fam.k == "added6" {
+					// keys must be emitted in sorted order: added, added.f, added6, added6.f
+					b.WriteString(bstr(fam.k) + bytesOf(ln))
+					if rng.IntN(5) != 0 {
+						m := []int{0, 1, n - 1, n, n + 1, 2 * n}[rng.IntN(6)]
+						if m < 0 {
+							m = 0
+						}
+						b.WriteString(bstr(fam.k+".f") + bytesOf(m))
+					}
+				} else {
+					b.WriteString(bstr(fam.k) + bytesOf(ln))
+				}
+			}
+		case 0:
+			if rng.IntN(2) == 0 {
+				b.WriteString(bstr("e") + fmt.Sprintf("i%de", rng.IntN(3)))
+			}
+			if rng.IntN(2) == 0 {
+				b.WriteString(bstr("ipv4") + bytesOf([]int{0, 3, 4, 5, 16}[rng.IntN(5)]))
+			}
+			if rng.IntN(2) == 0 {
+				b.WriteString(bstr("ipv6") + bytesOf([]int{0, 4, 15, 16, 17}[rng.IntN(5)]))
+			}
+			b.WriteString(bstr("m") + "d")
+			for _, k := range []string{"lt_donthave", "upload_only", "ut_metadata", "ut_pex", "zz"} {
+				if rng.IntN(3) != 0 {
+					b.WriteString(bstr(k) + fmt.Sprintf("i%de", []int{0, 1, 2, 255, 256, 300, -1}[rng.IntN(7)]))
+				}
+			}
+			b.WriteString("e")
+			if rng.IntN(2) == 0 {
+				b.WriteString(bstr("metadata_size") + fmt.Sprintf("i%de", []int64{0, 1, 16384, 1 << 27, 1<<32 - 1, 1 << 32}[rng.IntN(6)]))
+			}
+			if rng.IntN(2) == 0 {
+				b.WriteString(bstr("p") + fmt.Sprintf("i%de", []int{0, 1, 65535, 65536}[rng.IntN(4)]))
+			}
+			if rng.IntN(2) == 0 {
+				b.WriteString(bstr("reqq") + fmt.Sprintf("i%de", []int64{0, 1, 250, 1 << 31, 1<<32 - 1, 1 << 32}[rng.IntN(6)]))
+			}
+			if rng.IntN(2) == 0 {
+				b.WriteString(bstr("upload_only") + []string{"i0e", "i1e", "i2e", "1:0", "1:1", "1:x", "0:"}[rng.IntN(7)])
+			}
+			if rng.IntN(2) == 0 {
+				b.WriteString(bstr("v") + bytesOf([]int{0, 1, 40, 5000}[rng.IntN(4)]))
+			}
+		case 2:
+			b.WriteString(bstr("msg_type") + fmt.Sprintf("i%de", []int{0, 1, 2, 3, 255, 256}[rng.IntN(6)]))
+			b.WriteString(bstr("piece") + fmt.Sprintf("i%de", []int64{0, 1, 1 << 31, 1<<32 - 1, 1 << 32}[rng.IntN(5)]))
+			if rng.IntN(2) == 0 {
+				b.WriteString(bstr("total_size") + fmt.Sprintf("i%de", []int64{0, 1, 16384, 1<<32 - 1, 1 << 32}[rng.IntN(5)]))
+			}
+		}
+		b.WriteString("e")
+		if sub == 2 {
+			b.Write(make([]byte, []int{0, 1, 16383, 16384, 16385}[rng.IntN(5)]))
+		}
 	case "strlen>frame":
 		k := vk.Pick(rng, keys)
 		n := []int64{100, 1 << 16, 1 << 20, 1 << 24, 1 << 30, 1<<31 - 1, 1 << 31, 1 << 40, 1<<63 - 1}[rng.IntN(9)]
